@@ -8,7 +8,13 @@ of the whole function per kind of bump:
   b        'nb': the filtered comprehension over rrule as a loop with the weekday-count invariant, [::-1], [::|n|]
   unit     'nd' 'nw' 'nh' 'nn' 'ns' with n > 0: rrule(freq, interval=n) by the rrule axiom of th_rrule (third-party, axiom);
            'nm' 'nq' 'ny': only the direction check - rrule MONTHLY/YEARLY is NOT axiomatised, the returned list stays bounded
-  loop     compound period strings and negative single periods: While#2, While#3 with dt_bump taken by contract (BUMP)
+  loop     compound period strings and negative single periods: While#2, While#3 with dt_bump taken by contract (BUMP), under the hypothesis
+           that BUMP moves every t forward (all parts positive) resp. backward (all parts negative) - used at instances only
+  negative '-nd' ... '-ny', one concrete unit letter per run: must reach the dt_bump loop and never rrule, whose callee precondition
+           interval >= 1 (obligation call.rrule.pre.interval_ge_1 at every call site) they would violate (defect D6, repaired by ef9056c)
+Known finding (key C10:rrule-branches:subsecond-start-truncated): every branch that goes through dateutil.rrule loses the microseconds of t0
+(rrule.__init__ does dtstart.replace(microsecond=0)); the clauses of those branches are proved for whole-second starts and the complement is an
+expected-to-fail obligation.
 Lemmas: product schemas (against the real product), weekday-count lemmas, agreement of two lists that both satisfy the step-form
 postcondition (induction), each dt_bump token with n > 0 moves t forward / n < 0 backward (real dt_bump region through C09's
 machinery), chains of increasing steps increase (induction).
@@ -95,6 +101,7 @@ def theories(mach, unit=None):
             Dates(), ConcreteStr(md, []), toks]
 
 
+EXECUTED = set()
 EXCLUDED = ['endpoint resolution date_range(t0, t1) for non-datetime endpoints (bumps, ints, strings, None): taken by contract for datetimes',
             "rrule(MONTHLY / YEARLY, interval=k) for positive 'nm' 'nq' 'ny': not axiomatised, the returned list is checked by the bounded stand-in only"]
 
@@ -108,8 +115,9 @@ def run(ctx, mach, bump, pre, name, loops=None, unit=None, witness=None, replay=
         ob.witness = dict(witness or {})
         ob.meta['replay'] = replay
     ctx.absorb(ex)
-    ctx.record_function(m, 'drange', fn, ex.stmts_executed, excluded=EXCLUDED)
-    ctx.record_function(md, 'is_period', md.func('is_period'), ex.stmts_executed, how='inlined into drange')
+    EXECUTED.update(ex.stmts_executed)       # statements reached by any of the runs so far
+    ctx.record_function(m, 'drange', fn, EXECUTED, excluded=EXCLUDED)
+    ctx.record_function(md, 'is_period', md.func('is_period'), EXECUTED, how='inlined into drange')
     return ex, outs
 
 
@@ -123,6 +131,7 @@ def call_of(spec):
 
 
 def build(ctx):
+    EXECUTED.clear()
     mach = machinery(ctx)
     m, md, fn, whiles, comp, toks, inline = mach
     wit = dict(o0=o0, u0=u0, o1=o1, u1=u1, n=n)
@@ -405,12 +414,18 @@ def build(ctx):
     def loop_section():
         for sign, label, mono, shape, tenor in ((1, 'forward', INC, [NTOK >= 2], '2d3h'),
                                                 (-1, 'backward', DEC, [Or(NTOK >= 2, And(NTOK == 1, toks.tu(IntVal(0)) != ord('b'), N < 0))], '-2d-3h')):
-            rep = call_of(dict(str=tenor))
+            def spec(g, tenor=tenor, sign=sign):
+                # a one-token model is replayed with that token, anything else with a fixed two-part tenor of the right sign
+                if g('ntok') == 1 and chr(g('unit', 100)) in 'dwmqyhns' and g('n') * sign > 0:
+                    return dict(str='%d%s' % (max(-60, min(60, g('n'))), chr(g('unit', 100))))
+                return dict(str=tenor)
+            rep = call_of(spec)
+            wl = dict(wit, n=N, ntok=NTOK, unit=toks.tu(IntVal(0)))
             pre = DOM + [Not(pair_eq(t0, t1)), NTOK >= 1, mono(t0)] + shape
-            ex, outs = run(ctx, mach, toks.tenor(NTOK, 0, 0), pre, 'loop.' + label, loops=loop_specs, witness=wit, replay=rep)
+            ex, outs = run(ctx, mach, toks.tenor(NTOK, 0, 0), pre, 'loop.' + label, loops=loop_specs, witness=wl, replay=rep)
             away = lex_lt(t1, t0) if sign > 0 else lex_lt(t0, t1)
-            rets = direction('loop.' + label, ex, outs, away, wit, rep)
-            loop_posts('loop.' + label, ex, rets, sign, wit, rep)
+            rets = direction('loop.' + label, ex, outs, away, wl, rep)
+            loop_posts('loop.' + label, ex, rets, sign, wl, rep)
             ctx.cover('loop.%s.pre_satisfiable' % label, pre + [away == BoolVal(False)])
     ctx.guarded('loop', loop_section)
 
